@@ -73,6 +73,17 @@ CHECKS["C22"] = dict(cat="other", ref="4 C22", engine="pysym",
         "extremality against an arbitrary member). Widths 1..3 (joins) / 1..4 (queries) quick, one more in thorough.",
    technique="symbolic execution of the real Python code on int shadows; Z3 containment / exactness query per path (bounded widths)",
    note=VSA_NOTE)
+CHECKS["C07"] = dict(cat="translation_validation", ref="4 C07 / 11.6", engine="pysym",
+   text="The C01 shape pool (rule seeds + depth-1 trees) is built through the real constructors with symbolic constants while annotations of the three "
+        "contract kinds sit on chosen nodes (each non-root node alone x {relocatable, neither}; all leaves x each kind; two mixed plans). On every "
+        "explored path: every annotation that is neither eliminatable nor relocatable is still reachable in the result (walk over args), every "
+        "relocatable one is in result.annotations. claripy.simplify(e): top annotations and relocatable annotations of direct arguments are on the "
+        "result (Z3 round trip modelled as 'same expression without annotations' for symbolic constants, re-checked natively with the real Z3 "
+        "simplifier on solver-chosen constants). Solver/SolverCacheless/SolverComposite/SolverReplacement/SolverHybrid.simplify(): a constraint with a "
+        "SimplificationAvoidanceAnnotation is never handed to the rewriter and is the identical object afterwards.",
+   technique="symbolic execution of the real Python code on int shadows (path feasibility over all constants decided by Z3); structural annotation-contract assertion per path",
+   note=EXPR_NOTE + " C07 specific: the assertion itself is structural (set membership), the solver's part is the exhaustive path exploration over the constants; "
+        "annotation plans are enumerated; relocate() returning a different object is outside the claim.")
 NOT_YET = {}
 NA = {
  "C20": "Real OS-thread preemption inside CPython and libz3 cannot be encoded by any engine available here; a stress run would be sampling, i.e. a different technique (DESIGN.md section 5).",
